@@ -386,7 +386,23 @@ def main_source(decls, builder_flags):
         start = len(o) + 1
         o.extend(m)
         linemap.append({"id": d["id"], "mod_first": start, "mod_last": len(o), "decl_first": start + a, "decl_last": start + b})
+    o.append("fn replay_main(path: &str) {")
+    o.append("    std::panic::set_hook(Box::new(|_| {}));")
+    o.append("    let behs = rt::read_behaviours(path);")
+    o.append("    let mut out: Vec<String> = Vec::new();")
+    o.append("    let mut steps = 0usize;")
+    o.append("    for (no, decl, st) in behs.iter() {")
+    o.append("        steps += match decl {")
+    for d in decls:
+        o.append("            %d => rt::replay_behaviour::<d%d::%s>(*no, st, &mut out)," % (d["id"], d["id"], d["name"]))
+    o.append("            _ => panic!(\"unknown declaration\"),")
+    o.append("        };")
+    o.append("    }")
+    o.append("    for l in &out { println!(\"{}\", l); }")
+    o.append("    println!(\"REPLAYED {} {}\", behs.len(), steps);")
+    o.append("}")
     o.append("fn main() {")
+    o.append("    if let Ok(p) = std::env::var(\"REPLAY_FILE\") { replay_main(&p); return; }")
     o.append("    let mut rec = rt::Rec::from_env();")
     for d in decls:
         o.append("    rt::run_one::<d%d::%s>(&mut rec);" % (d["id"], d["name"]))
